@@ -185,6 +185,7 @@ def spec_prior_slots(pb, row):
             var = (sK0 * fK) * (sK0 * fK) / (1 - e * e) * core.uf("POW", ratio, -2 / 3.)
             cap = (maxK * fK) * (maxK * fK)
             lams.append(core.sym_min([cap, var]))
+            pb["_last_K_rule"] = {"uncapped": var, "cap": cap}
         else:
             lams.append((ent[1] * f) * (ent[1] * f))
     return mus, lams
